@@ -1,0 +1,6 @@
+//go:build !verif
+
+package keeper
+
+// verifFail is a fault-injection point that is a no-op unless built with the `verif` tag.
+func verifFail(string) error { return nil }
